@@ -51,6 +51,12 @@ let parse_ka (s : string) : bool * shoot_opts * string list =
        { o_answlog = has "aa" || has "aw" || has "ae"; o_filter = n_of_int filter; o_dump = has "d"; o_trace = has "t"; o_debug = has "v" },
        ts)
 
+(* gun kind and dial timeout among the gun option tokens: k = connect, K = connect with connect-ssl, T<ms> = dial.timeout *)
+let gun_kind (ts : string list) : bool * bool * int =
+  let timeout = List.fold_left (fun acc t ->
+      if String.length t > 1 && t.[0] = 'T' then (try int_of_string (String.sub t 1 (String.length t - 1)) with _ -> acc) else acc) 3000 ts in
+  (List.mem "k" ts || List.mem "K" ts, List.mem "K" ts, timeout)
+
 let bytes_of_string (s : string) : n list = List.init (String.length s) (fun i -> n_of_int (Char.code s.[i]))
 
 (* the "[key: value]" line as the harness writes it in the case's style (suffix of the preload field: s "[k:v]", S "[  k \t:   v ]",
@@ -86,13 +92,22 @@ let parse_item () : item =
 
 
 (* parse the observation's records *)
+(* the tun= field of the last parsed observation (connect gun cases only): CONNECTs / connections at the recording servers /
+   CONNECTs with a foreign authority / connections that did not start with a CONNECT *)
+let last_tun : string option ref = ref None
+
 let parse_obs (o : string) : (string * string * string * int * rc list) option =
   try
     let parts = List.map String.trim (String.split_on_char '|' o) in
     match parts with
     | [] -> None
     | head :: recs ->
-        let (run, conn, cl, n) = Scanf.sscanf head "run=%s conn=%s cl=%s n=%d" (fun a b c d -> (a, b, c, d)) in
+        let kvs = List.filter_map (fun t -> match String.index_opt t '=' with
+            | Some i -> Some (String.sub t 0 i, String.sub t (i + 1) (String.length t - i - 1)) | None -> None)
+            (split_blank head) in
+        let get k = List.assoc k kvs in
+        let (run, conn, cl, n) = (get "run", get "conn", get "cl", int_of_string (get "n")) in
+        last_tun := List.assoc_opt "tun" kvs;
         let one (s : string) : rc =
           let t = ref (String.split_on_char ' ' s) in
           let nx () = match !t with [] -> failwith "short rec" | x :: r -> t := r; x in
@@ -103,9 +118,9 @@ let parse_obs (o : string) : (string * string * string * int * rc list) option =
         Some (run, conn, cl, n, List.map one recs)
   with _ -> None
 
-let render (conn : string) (cl : string) (recs : rc list) : string =
+let render (conn : string) (cl : string) (tun : string) (recs : rc list) : string =
   let ls = List.sort compare (List.map show recs) in
-  Printf.sprintf "run=ok conn=%s cl=%s n=%d%s" conn cl (List.length ls) (String.concat "" (List.map (fun l -> " | " ^ l) ls))
+  Printf.sprintf "run=ok conn=%s cl=%s%s n=%d%s" conn cl tun (List.length ls) (String.concat "" (List.map (fun l -> " | " ^ l) ls))
 
 (* shared-client block of the case: n | d<N> | e<N> *)
 let parse_sc (s : string) : shared_cfg =
@@ -220,10 +235,24 @@ let predict (c : string) (obs : string) : string * string * bool =
                  ((if good then conn else "outside-conn_ok"), good)
              | _ -> ("unparsable", false))
         | None -> ("unparsable", false)) in
-      let pred = render conn_text cl_model model in
-      let want = render conn_text cl_model sp in
+      (* connect gun (round 7): every connection the gun's target (the tunnel front) accepts beyond the reachability probes starts
+         with ONE CONNECT whose authority and Host are the target itself (the front counts the others; C09_connect_request on the
+         address Shoot sets: the resolved target), and every tunnel is one connection at the recording server behind: tun = c/c/0/0 with
+         c = accepted - probes *)
+      let (connect, _, _) = gun_kind gtoks in
+      let tun_text, tun_good = (match connect, !last_tun, parsed with
+        | false, None, _ -> ("", true)
+        | true, Some t, Some (_, conn, _, _, _) ->
+            (match ints_of '/' t, ints_of '/' conn with
+             | Some [cn; at; bad; non], Some (_ :: accepted :: probes :: _) ->
+                 let good = cn = at && cn = accepted - probes && bad = 0 && non = 0 in
+                 ((if good then " tun=" ^ t else " tun=outside-spec"), good)
+             | _ -> (" tun=unparsable", false))
+        | _ -> (" tun=missing", false)) in
+      let pred = render conn_text cl_model tun_text model in
+      let want = render conn_text cl_model tun_text sp in
       let verdict =
-        if obs = want && conn_good && cl_ok then "ok"
+        if obs = want && conn_good && cl_ok && tun_good then "ok"
         else match parsed with
           | None -> "BAD:unparsable-observation"
           | Some (run, _conn, _cl, n, recs) ->
@@ -238,7 +267,8 @@ let predict (c : string) (obs : string) : string * string * bool =
                   | x :: ar, y :: br -> if show x = show y then first_diff ar br else Some (x, y)
                   | _ -> None in
                 match first_diff so ss with
-                | None -> if not cl_ok then "BAD:client-sharing" else if not conn_good then "BAD:connection-count" else "BAD:other"
+                | None -> if not cl_ok then "BAD:client-sharing" else if not conn_good then "BAD:connection-count"
+                          else if not tun_good then "BAD:tunnel" else "BAD:other"
                 | Some (x, y) ->
                     if x.srv <> y.srv then "BAD:wrong-server"
                     else if x.tls <> y.tls then "BAD:scheme"
@@ -253,23 +283,31 @@ let predict (c : string) (obs : string) : string * string * bool =
       (pred, verdict, nontrivial)
   | "hist" ->
       (* scripted history on the real guns: exact comparison with the transport model t_run, judged by hist_ok / clients_ok *)
-      let (ka, _opts, _) = parse_ka (next ()) in
+      let (ka, _opts, gtoks) = parse_ka (next ()) in
       let sc = parse_sc (next ()) in
       let mi = eff_max_idle (z_of_int (num ())) in
       let _size = next () in
       let n = num () in
       let nev = num () in
-      let h = List.init nev (fun _ -> let t = next () in
-                let k = nat_of_int (int_of_string (String.sub t 1 (String.length t - 1))) in
-                if t.[0] = 'B' then Begin k else End k) in
-      let requests = List.length (List.filter (function Begin _ -> true | End _ -> false) h) in
+      (* round 7: W<ms> = time passes; the history is TIMED (Model/HttpTunnel.v): every B / E happens at the sum of the waits
+         before it.  The deadline a connection carries is what the gun's dial function leaves on it (gun_arm: gun kind http /
+         connect / connect with connect-ssl, dial timeout T<ms>, default 3000 ms) *)
+      let (connect, connect_ssl, timeout) = gun_kind gtoks in
+      let clock = ref 0 in
+      let h = List.concat (List.init nev (fun _ -> let t = next () in
+                let v = int_of_string (String.sub t 1 (String.length t - 1)) in
+                if t.[0] = 'W' then (clock := !clock + v; [])
+                else [At (n_of_int !clock, (if t.[0] = 'B' then Begin (nat_of_int v) else End (nat_of_int v)))])) in
+      let requests = List.length (List.filter (function At (_, Begin _) -> true | _ -> false) h) in
       let show_log l = if l = [] then "-" else String.concat "," (List.map (fun (i, c) -> Printf.sprintf "%d:%d" i c) l) in
       let model_d = List.length (distinct_clients (instance_clients sc (nat_of_int n))) in
-      let pred = (match t_run (client_of (prepare_pool sc)) ka mi t_init h with
+      let pred = (match tt_run (client_of (prepare_pool sc)) ka mi (gun_arm connect connect_ssl (n_of_int timeout)) tt_init h with
         | None -> "not-a-history"
-        | Some st ->
-            Printf.sprintf "run=ok dials=%d log=%s cl=%d/%d" (int_of_nat st.t_dials)
-              (show_log (List.rev_map (fun (i, c) -> (int_of_nat i, int_of_nat c)) st.t_log)) model_d n) in
+        | Some s ->
+            let ((dials, log), failed) = tt_obs s in
+            if int_of_nat failed <> 0 then Printf.sprintf "model-loses-%d-requests-to-a-deadline" (int_of_nat failed) else
+            Printf.sprintf "run=ok dials=%d log=%s cl=%d/%d" (int_of_nat dials)
+              (show_log (List.map (fun (i, c) -> (int_of_nat i, int_of_nat c)) log)) model_d n) in
       let v = (try
           Scanf.sscanf obs "run=%s dials=%d log=%s cl=%d/%d" (fun run dials lg d b ->
             let log = if lg = "-" then [] else
